@@ -6,6 +6,9 @@ delivered in seeded random order, concurrently, with chaos yields on every netwo
 Block headers reach the wallet before, while or after the notifications about the block's transactions are processed (independent
 streams). After the staged chain, rounds of payments the WALLET builds itself (inputs reserved by coin selection, some builds never
 broadcast) come back through the same notifications, with the reservations dropped as at a daemon start (Y7).
+In a third of the schedules the connection to the server is lost now and then: a stage (or its first steps) happens while the wallet is away,
+nothing is pushed, the subscriptions die with the session; when the connection is back the ledger's on_connected handler (join_network)
+subscribes the accounts again and the statuses it gets are the notifications the wallet has to catch up with (same clauses Y1-Y4).
 Oracle: reference ledger over the same chain (Y1-Y7, DESIGN §4 C09)."""
 import asyncio
 import hashlib
@@ -18,7 +21,8 @@ ID = 'C09'
 LEVEL = 'exploration'
 RULE = ('case = scenario (1-2 accounts, gap setting, 3-6 stages of 3-14 transactions: fund / spend / re-spend / claim / update / abandon / '
         'support / purchase / sweep of unconfirmed parents, third-party outputs of every template kind, mempool->block transitions) replayed '
-        'under 3 delivery schedules (half of them with block headers arriving 1-2 blocks late), one of them followed by 2 rounds of '
+        'under 3 delivery schedules (half of them with block headers arriving 1-2 blocks late; a third of them with connection losses: stages the '
+        'server goes through unseen, followed by Ledger.join_network() on the same ledger, some while the stage still goes on), one of them followed by 2 rounds of '
         'wallet-built payments + release of all reservations. evaluations = (scenario, schedule, stage) observations. distinct = hash(scenario seed, schedule '
         'interleaving signature, stage); non-trivial = stage contains a cross-address spend or a gap extension or a mempool transition')
 ASSUMPTIONS = ['the fake server follows the Electrum/LBRY-hub address-status protocol: history = confirmed by (height, position) then mempool '
@@ -30,7 +34,9 @@ REQUIRED_HITS = ['Y1.checked', 'Y2.checked', 'Y3.checked', 'Y4.checked', 'Y5.sch
                  'stage.change_notified_before_spent_address', 'stage.mempool_to_block', 'stage.gap_extension', 'stage.funded_at_gap_edge',
                  'tx.claim', 'tx.update', 'tx.support', 'tx.purchase', 'stream.stages', 'stream.notified_while_same_address_update_in_flight', 'tx.unconfirmed_parent', 'third_party.p2pk', 'third_party.p2sh',
                  'third_party.segwit', 'third_party.op_return', 'third_party.claim_script_hash', 'chaos.points',
-                 'hdr.tx_served_one_block_above_wallet_tip', 'Y7.checked', 'own.payment_synced_while_its_inputs_are_reserved']
+                 'hdr.tx_served_one_block_above_wallet_tip', 'Y7.checked', 'own.payment_synced_while_its_inputs_are_reserved',
+                 'conn.reconnects', 'conn.known_address_changed_while_away', 'conn.unused_address_funded_while_away',
+                 'conn.reconnected_while_stage_goes_on']
 MAXT = (1 << 255) - 1
 PREFIX = b'\x55'
 _S = {}
@@ -207,6 +213,17 @@ class Server:
         self.above_tip = {'one': 0, 'more': 0}
         self.latency = None         # () -> loop iterations a reply takes (slow history / transaction downloads)
         self.slow_replies = 0
+        self.told_before_loss = {}  # address -> status last told to the wallet on the session that was lost
+
+    def connection_lost(self):
+        # a subscription lives as long as the session: nothing is pushed from now on, a new session starts without subscriptions
+        self.is_connected = False
+        self.told_before_loss = dict(self.last_sent)
+        self.subscribed.clear()
+        self.last_sent.clear()
+
+    def connection_back(self):
+        self.is_connected = True
 
     async def _reply_delay(self):
         n = self.latency() if self.latency else 0
@@ -234,7 +251,7 @@ class Server:
 
     async def get_history(self, address):
         await self.ch.point('net:history:pre')
-        h = self.chain.history(self.subscribed[address])
+        h = self.chain.history(self.subscribed.get(address) or B.b58check_decode(address)[1:])      # answered for any address, subscribed or not
         self.calls['history'] += 1
         await self._reply_delay()
         await self.ch.point('net:history:post')
@@ -540,6 +557,24 @@ async def run_schedule(rec, scen, sched_seed, case, own=False):
         hr = random.Random(sched_seed * 2654435761 % (1 << 48) + 11)
         hdr_lag = bool(case.get('hdr_lag', hr.random() < 0.5))
         pending_hdrs = []       # (height, raw) of blocks the server has mined whose header the wallet has not received yet
+        # the connection to the server is lost now and then (a third of the schedules, own random stream): the server goes through a stage, or
+        # its first steps, while the wallet is away. Nothing is pushed meanwhile (neither statuses nor headers) and the subscriptions die with
+        # the session; when the connection is back, Network emits on_connected and the ledger's listener (Ledger.start: join_network)
+        # subscribes the accounts again on the SAME ledger - the statuses returned there are the notifications it has to catch up with
+        orr = random.Random(sched_seed * 69069 % (1 << 48) + 13)
+        outages = bool(case.get('outages', orr.random() < 0.35))
+
+        def reconnect():
+            server.connection_back()
+            told = server.told_before_loss
+            moved = sum(1 for a, st in told.items() if chain.status(B.b58check_decode(a)[1:]) != st)
+            fresh = sum(1 for a, st in told.items() if st is None and chain.status(B.b58check_decode(a)[1:]) is not None)
+            rec.hit('conn.reconnects')
+            if moved:
+                rec.hit('conn.known_address_changed_while_away', moved)
+            if fresh:
+                rec.hit('conn.unused_address_funded_while_away', fresh)
+            return asyncio.ensure_future(ledger.join_network(True))
 
         async def deliver_headers(keep=0):
             while len(pending_hdrs) > keep:
@@ -696,11 +731,21 @@ async def run_schedule(rec, scen, sched_seed, case, own=False):
             return True
 
         for si, steps in enumerate(scen['stages']):
+            away = outages and orr.random() < 0.4
+            back_at, joining = None, None
+            if away:
+                back_at = orr.choice([len(steps), len(steps), orr.randrange(0, len(steps) + 1)])       # after the stage / somewhere inside it
+                server.connection_lost()            # the wallet is idle here (the previous stage was worked off)
             # ---- the server's chain grows
-            for kind, arg in steps:
+            for k, (kind, arg) in enumerate(steps):
+                if away and k == back_at:
+                    joining = reconnect()           # the rest of the stage is notified while the wallet catches up
+                    rec.hit('conn.reconnected_while_stage_goes_on')
                 if kind == 'tx':
                     t = scen['chain'].tx[arg]
                     chain.insert(arg, t['raw'], t['ins'], t['outs'])
+                elif not server.is_connected:
+                    await server_mines(1 << 30)     # no header reaches the wallet either; they come with a later block (or below)
                 else:
                     await server_mines(hr.choice([0, 1, 1, 2]) if hdr_lag else 0)
                 if streaming:
@@ -712,6 +757,10 @@ async def run_schedule(rec, scen, sched_seed, case, own=False):
                 if overlapped:
                     rec.hit('stream.notified_while_same_address_update_in_flight', len(overlapped))
                     overlapped.clear()
+            if away and joining is None:
+                joining = reconnect()
+                for _ in range(orr.choice([0, 1, 5, 40])):
+                    await asyncio.sleep(0)
             # ---- notifications for every subscribed address whose status changed, in seeded random order, concurrently
             changed = []
             for a, h160 in list(server.subscribed.items()):
@@ -741,13 +790,16 @@ async def run_schedule(rec, scen, sched_seed, case, own=False):
                 for _ in range(r.choice([0, 0, 1, 3])):
                     await asyncio.sleep(0)
             await _quiesce(ledger)
+            if joining is not None:
+                await joining                       # join_network returns when the subscriptions are made and every update they started ended
+                await _quiesce(ledger)
             if hr.random() < 0.7:
                 await deliver_headers()             # ... or after all of them were processed (else: with a later block)
             ch.enabled = False
             obs = await observe(ledger, accounts, scen)
             ch.enabled = True
             observations.append(obs)
-            ok = judge(rec, scen, chain, server, obs, si, died, case, sched_seed)
+            ok = judge(rec, scen, chain, server, obs, si, died, case, sched_seed, phase='/after-reconnect' if away else '')
             for f in flags:
                 rec.hit('stage.' + f)
             rec.case([case['seed'], ch.signature(), si],
@@ -836,9 +888,9 @@ def judge_released(rec, chain, obs, stage, case, sched_seed, when):
     return False
 
 
-def judge(rec, scen, chain, server, obs, stage, died, case, sched_seed):
+def judge(rec, scen, chain, server, obs, stage, died, case, sched_seed, phase=''):
     odd = case.get('odd')
-    suffix = '/scenario-with-no-template-output' if odd else ''
+    suffix = phase + ('/scenario-with-no-template-output' if odd else '')       # phase: the stage passed (partly) while the connection was lost
     ok = True
     # ---- Y6: no update task died
     if died:
